@@ -13,7 +13,8 @@ from ..protos import http, dns, stun, rpc, smb
 PROP = "C19"
 PORTS = [0, 1, 22, 53, 80, 111, 445, 3478, 65535]
 RULE = ("corpus = valid requests of every application protocol/form, byte-mutated variants and DNS-query/STUN polyglots; two UDP "
-        "placements per payload use the source port that makes the request's UDP checksum the 0xFFFF encoding; each payload is sent to 12 "
+        "placements per payload use the source port that makes the request's UDP checksum the 0xFFFF encoding, a quarter of the placements carries "
+        "an Ethernet trailer after the IP datagram, and TCP placements include port pairs whose SYN cookie is exactly 0 / 0xFFFFFFFF; each payload is sent to 12 "
         "(sport, dport) pairs drawn from {0, 1, 22, 53, 80, 111, 445, 3478, 65535, random} x {IPv4, IPv6} over UDP and over "
         "cookie-validated TCP flows (one segment); whether it is answered and the canonical reply must be identical across all 24 "
         "placements of one transport. Canonical form: parsed by the independent codecs; STUN MAPPED-ADDRESS removed (length "
@@ -99,10 +100,44 @@ def compare(ctx, name, payload, tr, results):
             return
 
 
+def boundary_placements(ctx):
+    """Port pairs whose SYN cookie is 0 / 0xFFFFFFFF (witnesses.json, re-validated by probing) next to ordinary ones:
+    the same HTTP request must be answered identically on all of them."""
+    import json
+    import os
+    from .. import build
+    from ..driver import Config
+    try:
+        ws = json.load(open(os.path.join(build.VERIF, "witnesses.json")))["boundary_cookies"]
+    except Exception:
+        return
+    req = b"GET / HTTP/1.1\r\nHost: placement\r\n\r\n"
+    for w in ws:
+        cfg = Config(pkt.mac("c0:ff:ee:c0:ff:ee"), None, None, (int(w["key"][0], 16), int(w["key"][1], 16)), "n", 0)
+        ctx.case(cfg, reset=True)
+        e = pkt.Endp(pkt.mac("02:00:00:00:00:77"), cfg.mac, pkt.ip(w["src"]), pkt.ip(w["dst"]))
+        res = []
+        for sp, dp in ((w["sport"], w["dport"]), (w["sport"] ^ 1, w["dport"]), (40000, 8080)):
+            r = ctx.send(e.tcp(sp, dp, 100, 0, SYN))
+            a = pkt.parse(r.reply) if r.kind == "R" else {}
+            if a.get("flags") != (SYN | ACK):
+                continue
+            if (sp, dp) == (w["sport"], w["dport"]) and a["seq"] != int(w["cookie"], 16):
+                ctx.stats["boundary_witness_stale"] += 1
+            r = ctx.send(e.tcp(sp, dp, 101, (a["seq"] + 1) & 0xFFFFFFFF, PSH | ACK, req))
+            b = pkt.parse(r.reply) if r.kind == "R" else {}
+            res.append((("v4", sp, dp, "cookie %08x" % a["seq"]), canon_app(req, b.get("data"))))
+        if len(res) >= 2:
+            compare(ctx, "http_boundary", req, "tcp", res)
+            ctx.stats["boundary_placements"] += 1
+
+
 def shard(ctx, budget_s):
     rng = ctx.rng
     deadline = time.time() + budget_s
     n = 0
+    if ctx.shard == 2 % ctx.nshards:
+        boundary_placements(ctx)
     while time.time() < deadline or n == 0:
         cfg = gen.rnd_config(rng, selfips=rng.random() < 0.3, deny=False, logger="n", level=0)
         ctx.case(cfg, record=False)
@@ -121,7 +156,9 @@ def shard(ctx, budget_s):
                 v6, _sp, dp = pls[k]
                 pls[k] = (v6, sport_for_checksum_ffff(ends[k], dp, u), dp)
             # --- UDP
-            rs = ctx.send_many([e.udp(sp, dp, u) for e, (v6, sp, dp) in zip(ends, pls)])
+            # some placements carry bytes after the IP datagram (Ethernet padding / trailer): not part of the payload
+            trailer = [bytes(rng.getrandbits(8) for _x in range(rng.choice([1, 4, 18]))) if rng.random() < 0.25 else b"" for _p in pls]
+            rs = ctx.send_many([e.udp(sp, dp, u) + t_ for e, (v6, sp, dp), t_ in zip(ends, pls, trailer)])
             res = []
             for (v6, sp, dp), r in zip(pls, rs):
                 a = pkt.parse(r.reply) if r.kind == "R" else {}
@@ -138,7 +175,7 @@ def shard(ctx, budget_s):
                 if a.get("flags") != (SYN | ACK):
                     ctx.inconclusive += 1
                     continue
-                frames.append(e.tcp(sp, dp, isn + 1, a["seq"] + 1, PSH | ACK, t))
+                frames.append(e.tcp(sp, dp, isn + 1, a["seq"] + 1, PSH | ACK, t) + (bytes(4) if rng.random() < 0.2 else b""))
                 keep.append((v6, sp, dp))
             rs = ctx.send_many(frames)
             res = []
